@@ -41,6 +41,8 @@ Proof.
   - by apply remove_rxn_Inv.
   - by apply remove_species_Inv.
   - by apply assign_mol_Inv.
+  - by apply set_mol_map_Inv.
+  - by apply merge_Inv.
 Qed.
 Lemma edited_wf16 kept rxns mols eds : wf16 (foldl apply_edit (mk_net kept rxns mols) eds).
 Proof. apply Inv_wf16, foldl_Inv; [apply apply_edit_Inv|apply mk_net_Inv]. Qed.
